@@ -300,7 +300,7 @@ def S4(inp, chunks, event, lose=False):
 
 
 # ---------------------------------------------------------------------------------------
-@obligation('S5', props=('C09', 'C06'), quick=[dict(mode='dump'), dict(mode='incoming')], stubs=_STUBS + ('files on the symbolic disk of pvf.disk (primitive writes logged, kill between any two)',),
+@obligation('S5', props=('C09', 'C06'), quick=[dict(mode='dump'), dict(mode='incoming'), dict(mode='interleaved')], stubs=_STUBS + ('files on the symbolic disk of pvf.disk (primitive writes logged, kill between any two)',),
             bounds='one dump write (tmp file + atomic rename) or one incoming chunked transfer of 2 chunks into the dump path; kill before/after every primitive (case split: enumeration)')
 def S5(inp, mode):
     """the dump file is always a complete old or a complete new snapshot: a kill at any point of the dump write or of an
@@ -325,6 +325,10 @@ def S5(inp, mode):
         else:
             c1, c2 = Blob.fresh(('new', 1), 5), Blob.fresh(('new', 2), 4)
             r1, exc = guard(s.setTransmissionData, (c1, True, False))
+            if mode == 'interleaved' and exc is None:
+                # the node compacts its own log between two chunks of the incoming transfer
+                _, exc = guard(s.serialize, ('OWN', 1), 7)
+                s.checkSerializing()
             r2, exc = guard(s.setTransmissionData, (c2, False, False)) if exc is None else (None, exc)
             r3, exc = guard(s.setTransmissionData, (Blob(), False, True)) if exc is None else (None, exc)
         nprim = len(fs.log)
@@ -342,7 +346,8 @@ def S5(inp, mode):
         else:
             is_old = dump is not None and bool(Blob.coerce(dump).same(old))
             is_new = dump is not None and bool(Blob.coerce(dump).same(c1 + c2))
-            cl['dump_is_complete_old_or_new'] = is_old or is_new
+            is_own = isinstance(dump, Blob) and dump.sole_origin() is not None and dump.sole_origin()[0][0] == 'token'
+            cl['dump_is_complete_old_or_new'] = is_old or is_new or (mode == 'interleaved' and is_own)
             cl['install_reported_only_at_the_end'] = (r1, r2, r3) == (False, False, True)
             if cut == nprim:
                 cl['completed_transfer_visible'] = is_new
@@ -420,10 +425,10 @@ def RI(inp, n):
     o, tr, cons = _mk(inp, 'a', ('b', 'c'), clock, False)
     p = so.sym_state(inp, o, now, n, term_hi=4, base_hi=2, connected=())
     o.x = -1
-    d = inp.int('snap_idx', 2, 9)
+    d = inp.int('snap_idx', 2, 6)
     dt0, dt1 = inp.int('dt0', 0, 5), inp.int('dt1', 0, 5)
     mterm = inp.int('mterm', 0, 5)
-    mci = inp.int('mci', 0, 12)
+    mci = inp.int('mci', 0, 9)
     inp.assume(And(d >= p.commit, dt0 <= dt1, dt1 <= mterm, mterm >= p.term, mci >= d))
     xs = inp.int('xs', 0, 5)
     image = Token(([{'x': xs, 'items': [xs]}, {'_ReplList__data': [xs]}, {'_ReplCounter__counter': xs}], (so.NOOP, d, dt1), (so.NOOP, d - 1, dt0),
@@ -441,11 +446,22 @@ def RI(inp, n):
             ser._Serializer__inMemorySerializedData = image
         return ok
     ser.setTransmissionData = set_tx
+    # callbacks of commands this node forwarded earlier: one for a position the snapshot covers, one above it
+    from pvf.obligations.apply import Rec
+    rec_cov, rec_above = Rec('covered'), Rec('above')
+    wc = get(o, 'commandsWaitingCommit')
+    cov_idx = d - inp.choice('cb_below', 2)
+    inp.assume(cov_idx > p.applied)
+    wc[cov_idx].append((inp.int('cb_term', 0, 5), rec_cov))
+    wc[d + 1].append((mterm, rec_above))
     msg = {'type': 'append_entries', 'term': mterm, 'commit_index': mci, 'serialized': (Blob(), False, True)}
     _, exc = guard(getattr(o, so.P + 'onMessageReceived'), Node('b'), msg)
     q = so.post_state(o)
     acks = [m for nd, m in tr.sent if m['type'] == 'next_node_idx' and m['success'] is True]
     cl = {'no_exception': exc is None}
+    # a position covered by a snapshot was committed and applied: its outcome is unknown to this node, never "not applied"
+    cl['no_failure_reported_for_positions_the_snapshot_covers'] = all(err == 0 for _, err in rec_cov.calls) and len(rec_cov.calls) <= 1
+    cl['callbacks_above_the_snapshot_untouched'] = rec_above.calls == []
     if started:
         cl['log_is_the_two_snapshot_entries'] = len(q.log) == 2 and And(Eq(q.log[0][1], d - 1), Eq(q.log[1][1], d), Eq(q.log[0][2], dt0), Eq(q.log[1][2], dt1))
         cl['applied_index_is_snapshot_position'] = Eq(q.applied, d)
